@@ -77,6 +77,7 @@ const (
 	KNilSliceError   // nil value of a named slice type whose Error method indexes it (panics)
 	KNilFuncStringer // nil value of a named func type whose String method calls it (panics)
 	KFormatterWS     // fmt.Formatter writing through io.WriteString (the io.StringWriter fast path)
+	KMapSortKeys     // maps whose printing order exercises fmtsort: unsigned keys around 1<<63, signed, floats incl. NaN/Inf/-0, bool, arrays, complex, uintptr
 	kindCount
 )
 
@@ -393,6 +394,8 @@ func (v *Val) build(inst int) interface{} {
 		return nilSliceErr(nil)
 	case KNilFuncStringer:
 		return nilFuncStr(nil)
+	case KMapSortKeys:
+		return sortKeyMap(v.ID, inst)
 	case KMapIfaceKey:
 		return map[interface{}]string{nil: unsafeStr(v.ID, inst), 1: "one", "k": unsafeStr(v.ID+1, inst), 2.5: "f", true: "t"}
 	case KMapStructKey:
@@ -486,7 +489,7 @@ func (v *Val) ownClass() bool {
 var leafKinds = []VKind{KNil, KBool, KInt, KInt8, KUint16, KUint64, KUintptr, KFloat, KComplex, KString, KBytes, KNamedStr, KNamedInt,
 	KSafeStr, KSafeInt, KRegInt, KRegStruct, KErr, KStringer, KPStringer, KNilStringer, KGoStringer, KFormatter, KSafeFormatter, KSafeMessager,
 	KErrFormatter, KErrStringer, KPanicStringer, KPanicError, KPanicSafeFormatter, KPtrStruct, KPtrRegStruct, KNilPtr, KIntPtr, KStrSlice, KIntArr, KMapKeyed,
-	KRedactable, KRedactableB, KChan, KFunc, KByteArr, KDuration, KBuilder, KSafeStringer, KFormatterWS, KMapIfaceKey, KMapStructKey, KNilMapStringer, KNilSliceError, KNilFuncStringer}
+	KRedactable, KRedactableB, KChan, KFunc, KByteArr, KDuration, KBuilder, KSafeStringer, KFormatterWS, KMapIfaceKey, KMapStructKey, KNilMapStringer, KNilSliceError, KNilFuncStringer, KMapSortKeys}
 
 var redactPool = []string{"", "plain", "‹x›", "a ‹b› c", "‹a›\n‹b›", "?‹?›", "‹×›", "‹ ›x\n", "pre‹u1›mid‹u2›post", "‹q?z›"}
 
@@ -552,7 +555,7 @@ func (v *Val) String() string {
 		KPanicSafeFormatter: "panicSafeFormatter", KPtrStruct: "*struct", KPtrRegStruct: "*RegStruct", KNilPtr: "nil*struct", KIntPtr: "*int", KReflectValue: "reflect.Value",
 		KSafe: "Safe", KUnsafe: "Unsafe", KSlice: "[]any", KStrSlice: "[]string", KIntArr: "[2]int", KMap: "map", KMapKeyed: "map[MyStr]int",
 		KStruct: "struct", KRedactable: "RedactableString", KRedactableB: "RedactableBytes", KChan: "chan", KFunc: "func", KByteArr: "[3]byte",
-		KDuration: "dur", KBuilder: "*StringBuilder", KSafeStringer: "SafeStringer", KFormatterWS: "FormatterWS", KMapIfaceKey: "map[any]string", KMapStructKey: "map[struct]int", KNilMapStringer: "nilMapStringer", KNilSliceError: "nilSliceError", KNilFuncStringer: "nilFuncStringer"}
+		KDuration: "dur", KBuilder: "*StringBuilder", KSafeStringer: "SafeStringer", KFormatterWS: "FormatterWS", KMapIfaceKey: "map[any]string", KMapStructKey: "map[struct]int", KMapSortKeys: "map[sortable]string", KNilMapStringer: "nilMapStringer", KNilSliceError: "nilSliceError", KNilFuncStringer: "nilFuncStringer"}
 	s := names[v.K]
 	if v.K == KRedactable || v.K == KRedactableB {
 		s += fmt.Sprintf("%q", v.R)
@@ -616,4 +619,30 @@ func genFormat(r *Rng, n int, allowW bool) string {
 		sb.WriteString([]string{"%", "%!", "%[1]v", "%[9]d", "%*d", "%.*f", "%[2]*[1]d", "%-", "%1", "%[", "%[x]d", "%v"}[r.Intn(12)])
 	}
 	return sb.String()
+}
+
+
+// sortKeyMap: maps with keys of every kind internal/rfmt/fmtsort orders, values unsafe strings.
+func sortKeyMap(id, inst int) interface{} {
+	u := func(k int) string { return unsafeStr(id+k%2, inst) } // a leaf owns two ids
+	switch id % 9 {
+	case 0:
+		return map[uint64]string{1: u(0), 42: u(1), math.MaxUint64: u(2), 1 << 63: u(3), 1<<63 - 1: u(4)}
+	case 1:
+		return map[int8]string{-128: u(0), -1: u(1), 0: u(2), 127: u(3)}
+	case 2:
+		return map[float64]string{math.NaN(): u(0), math.Inf(-1): u(1), -1.5: u(2), 0: u(3), math.Inf(1): u(4)}
+	case 3:
+		return map[bool]string{true: u(0), false: u(1)}
+	case 4:
+		return map[[2]int]string{{1, 2}: u(0), {1, -2}: u(1), {0, 9}: u(2)}
+	case 5:
+		return map[complex128]string{complex(1, 2): u(0), complex(1, -2): u(1), complex(-1, 0): u(2)}
+	case 6:
+		return map[uintptr]string{^uintptr(0): u(0), 7: u(1), 1 << 40: u(2)}
+	case 7:
+		return map[uint8]string{255: u(0), 128: u(1), 127: u(2), 0: u(3)}
+	default:
+		return map[interface{}]string{uint64(math.MaxUint64): u(0), uint64(3): u(1), int64(-5): u(2), "s": u(3), 2.5: u(4)}
+	}
 }
